@@ -155,7 +155,7 @@ theorem ext3_2 {ρ0 : Nat → Inf.Ty} {f : Nat} {a b c : Inf.Ty} : ext3 ρ0 f a 
   simp [ext3, h1]
 
 /-- the assignment gives every node variable the node's arrow -/
-def Repr (n : Nat) (ar : Arrows) (ρ : Nat → Inf.Ty) : Prop :=
+def Represents (n : Nat) (ar : Arrows) (ρ : Nat → Inf.Ty) : Prop :=
   ∀ j, j < n → ρ (2 * j) = infOfTy (srcOf ar j) ∧ ρ (2 * j + 1) = infOfTy (tgtOf ar j)
 
 theorem get?_src_tgt {ar : Arrows} {c : Nat} {a b : Ty} (h : ar[c]? = some (a, b)) :
@@ -167,7 +167,7 @@ theorem get?_src_tgt {ar : Arrows} {c : Nat} {a b : Ty} (h : ar[c]? = some (a, b
 rule extends, on the node's fresh variables only, to a solution of the node's equations -/
 theorem step_sol {jt : JetTypes} {ar : Arrows} {n i : Nat} {nd : Node} {f : Nat} {es : List Eqn}
     {f' : Nat} {ρ0 : Nat → Inf.Ty} (hn : nodeEqns jt i nd f = some (es, f'))
-    (hr : NodeRule jt ar (srcOf ar i) (tgtOf ar i) nd) (hrep : Repr n ar ρ0) (hi : i < n)
+    (hr : NodeRule jt ar (srcOf ar i) (tgtOf ar i) nd) (hrep : Represents n ar ρ0) (hi : i < n)
     (hch : ∀ c ∈ nd.children, c < n) (hf : 2 * n ≤ f) :
     ∃ ρ1, (∀ x, x < f → ρ1 x = ρ0 x) ∧ ∀ e ∈ es, e.1.eval ρ1 = e.2.eval ρ1 := by
   obtain ⟨hA0, hB0⟩ := hrep i hi
@@ -449,8 +449,8 @@ theorem sol_of_typing_go {jt : JetTypes} {ar : Arrows} {n : Nat} {mask : Nat →
       constraintsMGo jt mask i nodes f acc = some E →
       (∀ k nd, nodes[k]? = some nd → mask (i + k) = true →
         NodeRule jt ar (srcOf ar (i + k)) (tgtOf ar (i + k)) nd ∧ ∀ c ∈ nd.children, c < n) →
-      i + nodes.length ≤ n → 2 * n ≤ f → Repr n ar ρ0 → Inf.Sol ρ0 acc → VarsLt f acc →
-      ∃ ρ, Inf.Sol ρ E ∧ Repr n ar ρ
+      i + nodes.length ≤ n → 2 * n ≤ f → Represents n ar ρ0 → Inf.Sol ρ0 acc → VarsLt f acc →
+      ∃ ρ, Inf.Sol ρ E ∧ Represents n ar ρ
   | [], i, f, acc, E, ρ0, h, _, _, _, hrep, hsol, _ => by
     simp only [constraintsMGo, Option.some.injEq] at h
     subst h
@@ -483,7 +483,7 @@ theorem sol_of_typing_go {jt : JetTypes} {ar : Arrows} {n : Nat} {mask : Nat →
         obtain ⟨hr, hch⟩ := htyp 0 nd (by simp) (by simpa using hm)
         have hi : i < n := by simp only [List.length_cons] at hlen; omega
         obtain ⟨ρ1, hagree, hes⟩ := step_sol hq (by simpa using hr) hrep hi hch hf
-        have hrep1 : Repr n ar ρ1 := fun j hj => by
+        have hrep1 : Represents n ar ρ1 := fun j hj => by
           rw [hagree _ (by omega), hagree _ (by omega)]; exact hrep j hj
         have hsol1 : Inf.Sol ρ1 (acc ++ es) := by
           intro e he
@@ -504,7 +504,7 @@ theorem sol_of_typing_go {jt : JetTypes} {ar : Arrows} {n : Nat} {mask : Nat →
 constraints of the selected nodes -/
 theorem sol_of_typing {jt : JetTypes} {P : Plan} {mask : Nat → Bool} {program : Bool} {ar : Arrows}
     {E : List Eqn} (hc : constraintsM jt P mask program = some E) (ht : Typing jt P mask program ar) :
-    ∃ ρ, Inf.Sol ρ E ∧ Repr P.size ar ρ := by
+    ∃ ρ, Inf.Sol ρ E ∧ Represents P.size ar ρ := by
   unfold constraintsM at hc
   cases hgo : constraintsMGo jt mask 0 P.toList (2 * P.size) [] with
   | none => rw [hgo] at hc; cases hc
@@ -513,7 +513,7 @@ theorem sol_of_typing {jt : JetTypes} {P : Plan} {mask : Nat → Bool} {program 
     simp only [Option.some.injEq] at hc
     let ρ0 : Nat → Inf.Ty := fun x =>
       if x % 2 = 0 then infOfTy (srcOf ar (x / 2)) else infOfTy (tgtOf ar (x / 2))
-    have hrep0 : Repr P.size ar ρ0 := by
+    have hrep0 : Represents P.size ar ρ0 := by
       intro j _
       have e1 : (2 * j) % 2 = 0 := by omega
       have e2 : (2 * j) / 2 = j := by omega
